@@ -26,6 +26,9 @@ G_B = 'start: x+\nx: A [B] C "!" | "(" x ")" -> grp\nother: B+\nA: "a"\nB: "b"\n
 G_I = '%import .sub (A, B)\nstart: x+\nx: A [B] "!" | "(" x ")" -> grp\nother: B+\n%ignore " "\n'
 G_IL = '%import sub (A, B)\nstart: x+\nx: A [B] "!" | "(" x ")" -> grp\nother: B+\n%ignore " "\n'      # library-style import: searched in import_paths
 G_K = 'start: (KW | ID | NUM)+\nother: ID+\nKW.2: "ab"\nID: /[a-b]+/\nNUM.-1: /[ab]/\n%ignore " "\n%ignore "!"\n%ignore "("\n%ignore ")"\n%ignore "c"\n'   # colliding terminals: priorities decide
+G_N = '%import .mid (x, B)\nstart: x+\nother: B+\n%ignore " "\n%ignore "("\n%ignore ")"\n%ignore "c"\n'       # g -> mid -> leaf: a NESTED import
+MID = '%import .leaf (A)\nx: A [B] "!"\nB: "b"\n'
+LEAF = ['A: "a"\n', 'A: "a" | "A"\n', 'A: /a+/\n']
 SUB = ['A: "a"\nB: "b"\n', 'A: "a" | "A"\nB: "bb"\n', 'A: /a+/\nB: "b"\n']
 
 
@@ -57,6 +60,9 @@ POOL = {
     'P2': dict(g=G_IL, o={'import_paths': [V + 'p2']}, imports=[V + 'p2/sub.lark']),
     'P21': dict(g=G_IL, o={'import_paths': [V + 'p2', V + 'p1']}, imports=[V + 'p2/sub.lark']),
     'A-regex': dict(g=G_A, o={'regex': True}),
+    'N1': dict(g=G_N, o={}, open=V + 'p1/n.lark', imports=[V + 'p1/leaf.lark']),           # staleness must be detected two imports deep
+    'A-cb': dict(g=G_A, o={}, user={'lexer_callbacks': 'upper_c'}),                        # callable options: outside the key, re-applied at load
+    'A-tr': dict(g=G_A, o={}, user={'transformer': 'count'}),
     'L': dict(g='%import common (WS, INT)\nstart: x+\nx: A [B] INT? "!" | "(" x ")" -> grp\nother: B+\nA: "a"\nB: "b"\n%ignore WS\n', o={}),     # used_files holds a PackageResource
     'K': dict(g=G_K, o={}),
     'K-inv': dict(g=G_K, o={'priority': 'invert'}),
@@ -77,7 +83,7 @@ class Env:
     """the mutable environment a lifetime runs in (besides the cache files)"""
 
     def __init__(self):
-        self.sub = {V + 'p1/sub.lark': 0, V + 'p2/sub.lark': 1}
+        self.sub = {V + 'p1/sub.lark': 0, V + 'p2/sub.lark': 1, V + 'p1/leaf.lark': 0}
         self.lark_version = '1.3.1'
         self.py = None
 
@@ -154,7 +160,7 @@ class C12(Check):
         nk = rng.choice([1, 2, 2, 3, 4])
         hk = [rng.choice(keys) for _ in range(nk)]
         if rng.random() < 0.3:
-            hk += rng.choice([['I1', 'I2'], ['O1', 'O2'], ['S1', 'S2'], ['O1', 'I1', 'S1'], ['P1', 'P2'], ['P2', 'P21', 'P1'], ['K', 'K-inv', 'K-basic']])
+            hk += rng.choice([['I1', 'I2'], ['O1', 'O2'], ['S1', 'S2'], ['O1', 'I1', 'S1'], ['P1', 'P2'], ['P2', 'P21', 'P1'], ['K', 'K-inv', 'K-basic'], ['N1', 'N1'], ['A', 'A-cb', 'A-tr']])
         paths = ['c1'] if rng.random() < 0.7 else ['c1', 'c2']
         if rng.random() < 0.15:
             paths.append(True)
@@ -167,7 +173,7 @@ class C12(Check):
             if i > 0 and r < 0.35:
                 env.append({'kind': 'content', 'path': rng.choice(paths), 'fault': self._gen_content_fault(rng)})
             elif r < 0.45:
-                env.append({'kind': 'edit_import', 'file': rng.choice([V + 'p1/sub.lark', V + 'p2/sub.lark']), 'version': rng.randrange(len(SUB))})
+                env.append({'kind': 'edit_import', 'file': rng.choice([V + 'p1/sub.lark', V + 'p2/sub.lark', V + 'p1/leaf.lark']), 'version': rng.randrange(len(SUB))})
             elif r < 0.53:
                 env.append({'kind': 'lark_version', 'v': rng.choice(LARK_VERSIONS)})
             elif r < 0.58:
@@ -197,7 +203,9 @@ class C12(Check):
     # ------------------------------------------------------------------ environment handling
     def _apply_env(self, env, disk):
         for p, v in env.sub.items():
-            disk.texts[p] = SUB[v]
+            disk.texts[p] = (LEAF if p.endswith('leaf.lark') else SUB)[v % 3]
+        disk.texts[V + 'p1/n.lark'] = G_N
+        disk.texts[V + 'p1/mid.lark'] = MID
         disk.texts[V + 'p1/g.lark'] = G_I
         disk.texts[V + 'p2/g.lark'] = G_I
         self.lark.__version__ = env.lark_version
@@ -230,12 +238,29 @@ class C12(Check):
         """symbolic cache path of a plan -> path on the simulated disk (True stays True: lark derives the name itself)"""
         return (V + 'c/' + path) if isinstance(path, str) and not path.startswith(V) else path
 
+    @staticmethod
+    def _user_objects(spec):
+        from lark import Transformer
+        out = {}
+        if spec.get('lexer_callbacks') == 'upper_c':
+            out['lexer_callbacks'] = {'C': lambda t: t.update(value=t.value.upper()), 'A': lambda t: t.update(value='<' + t.value + '>')}
+        if spec.get('transformer') == 'count':
+            class Count(Transformer):
+                def x(self, ch):
+                    return ('x', len(ch))
+
+                def C(self, t):
+                    return len(t)
+            out['transformer'] = Count()
+        return out
+
     def _new(self, keyname, **extra):
         """the way a user of this pool entry creates the parser: Lark(text), Lark(text, source_path=..) or Lark.open(file)"""
         from lark import Lark
         k = POOL[keyname]
         g, kw = self._kwargs(keyname)
         kw.update(extra)
+        kw.update(self._user_objects(k.get('user') or {}))
         if 'cache' in kw:
             kw['cache'] = self._cpath(kw['cache'])
         self.facade.cwd = k.get('cwd')
@@ -281,7 +306,7 @@ class C12(Check):
         return out
 
     def _reference(self, keyname, env, disk):
-        sig = env.sig(keyname)
+        sig = (keyname, env.sig(keyname))        # behaviour also depends on callable options, which are not part of the semantic key
         r = self.refs.get(sig)
         if r is None:
             self.facade.default = F.Proc(disk, key=None)
